@@ -95,7 +95,7 @@ def sec_apply_isospin(rep):
                 out.append((f"k{i}/frame:coeff", k.coeff is coeffs[i], True))
             return out
 
-        rep.check(f"C12/apply_isospin/post/{nm}", case, sy, pre, sides=True)
+        rep.check(f"C12/apply_isospin/post/{nm}", case, sy, pre, sides=True, max_paths=64, budget_s=15)
 
     # special targets (from the documentation): proton identity, neutron swap
     def case_named(sy):
@@ -151,6 +151,46 @@ def sec_apply_isospin_number_types(rep):
             rep.add(ob_eval(f"C12/apply_isospin/number-types/Z={z},A={a} given as {nm}", ok, detail=detail, inputs={} if ok else {"Z": repr(zz), "A": repr(aa), "observed": detail}))
 
 
+def sec_apply_isospin_native_shapes(rep):
+    """Native companion of the unit contract (floats only, so it also speaks where the symbolic engine
+    cannot follow a rewrite): kernel lists of every shape a run produces -- weights on one member of a
+    doublet only (charged current, coupling-restricted runs), on antiquarks only, none at all, empty
+    coefficient functions, several kernels -- on targets whose mixing matrix has exact zeros (neutron,
+    proton) and on generic ones.  A rotated weight that is exactly zero REPLACES the old weight."""
+    import yadism.coefficient_functions as cf
+    from yadism.coefficient_functions.kernels import Kernel
+    from yadism.coefficient_functions.partonic_channel import EmptyPartonicChannel
+
+    empty = EmptyPartonicChannel.__new__(EmptyPartonicChannel)
+    shapes = {
+        "u only": {2: 1.3}, "d only": {1: 0.7}, "ubar only": {-2: 0.4}, "dbar only": {-1: 0.9}, "u and dbar": {2: 1.3, -1: 0.9},
+        "d, s, cbar (CC charm)": {1: 0.05, 3: 0.95, -4: 1.0}, "all light": {1: 0.3, -1: 0.7, 2: 1.1, -2: 0.2, 3: 0.5, -3: 0.5}, "gluon only": {21: 2.0}, "no weights": {}, "heavy only": {4: 1.0, -4: 1.0},
+    }
+    for z, a in ((0, 1), (1, 1), (1, 2), (23.403, 49.618), (82, 208), (2, 2), (0.0, 3.0)):
+        rep.cases += 1
+        ks = [Kernel(dict(w), empty if i % 4 == 1 else object()) for i, w in enumerate(shapes.values())]
+        bad = []
+        try:
+            cf.Combiner.apply_isospin(ks, z, a)
+            for (nm, w), k in zip(shapes.items(), ks):
+                exp = dict(w)
+                for sgn in (1, -1):
+                    d_, u_ = w.get(sgn * 1, 0.0), w.get(sgn * 2, 0.0)
+                    exp[sgn * 1] = (z * d_ + (a - z) * u_) / a
+                    exp[sgn * 2] = ((a - z) * d_ + z * u_) / a
+                got = {p: float(v) for p, v in k.partons.items()}
+                # a key may be absent where the expected weight is zero (drop_empty removes zeros anyway)
+                if any(abs(got.get(p, 0.0) - v) > 1e-14 for p, v in exp.items()) or any(p not in exp and abs(v) > 0 for p, v in got.items()):
+                    bad.append((nm, got, exp))
+        except Exception as e:  # noqa
+            bad.append(("raised", f"{type(e).__name__}: {e}", None))
+        ok = not bad
+        rep.add(ob_eval(f"C12/apply_isospin/native shapes/Z={z},A={a}: one-sided doublets, antiquark-only, empty and heavy kernels", ok, detail="" if ok else f"(kernel, got, expected): {bad[:2]}", inputs={} if ok else {"Z": z, "A": a, "kernel": str(bad[0][0]), "got": str(bad[0][1]), "expected": str(bad[0][2])}, replay={"confirmed": True, "python": "Combiner.apply_isospin([...kernels of the listed shapes...], Z, A)"}))
+
+
+CAP_HITS = [0]
+
+
 def sec_lattice(rep, tier):
     """For every cell: the REAL collected kernel list, rotated by the REAL apply_isospin, carries
     on every kernel exactly one rotation of the weights the generator produced (aliasing of
@@ -166,6 +206,11 @@ def sec_lattice(rep, tier):
 
     def worker(sub, c):
         name = H.cell_name(c)
+        if CAP_HITS[0] >= 4:
+            # the engine could not follow the code under analysis in four cells already (path cap or time
+            # budget): the remaining cells of this worker are not attempted -- undecided, in bounded time
+            sub.add(Ob(f"C12/collect+apply_isospin/{name}", "post", UNDECIDED, "engine", 0, "not attempted: the exploration exceeded its budget in four earlier cells of this worker"))
+            return
 
         def trial(c=c):
             cfg = H.cell_configs(sy, c)
@@ -204,7 +249,9 @@ def sec_lattice(rep, tier):
                     out.append((f"second collection: kernel{i}[{p}] unaffected by the earlier rotation", k2.partons.get(p, 0), o1.get(p, 0)))
             return out
 
-        sub.check(f"C12/collect+apply_isospin/{name}", case, sy, pre)
+        sub.check(f"C12/collect+apply_isospin/{name}", case, sy, pre, max_paths=64, budget_s=8)
+        CAP_HITS[0] += getattr(sub, "cap_hits", 0)
+        sub.cap_hits = 0
 
     if tier == "thorough":
         cells = list(H.lattice(tier, kinds=("F2", "FL", "F3", "g1", "gL", "g4"), ptos=((0, 0), (1, 0), (1, 1), (2, 2), (3, 2), (3, 3))))
@@ -371,7 +418,7 @@ def run(rep, tier, seed, only=None):
         "the contraction lemma is stated per kernel with uninterpreted parton values f(pid); linearity of apply_pdf (C17) lifts it to operators",
     )
     rep.stub("CouplingConstants -> WStub", "eko nf_default -> enumerated nf")
-    for nm, f in (("apply_isospin", sec_apply_isospin), ("numbertypes", sec_apply_isospin_number_types), ("lattice", lambda r: sec_lattice(r, tier)), ("collect_elems", sec_collect_elems), ("update_target", sec_update_target), ("realruns", lambda r: sec_real_runs(r, tier))):
+    for nm, f in (("apply_isospin", sec_apply_isospin), ("numbertypes", sec_apply_isospin_number_types), ("nativeshapes", sec_apply_isospin_native_shapes), ("lattice", lambda r: sec_lattice(r, tier)), ("collect_elems", sec_collect_elems), ("update_target", sec_update_target), ("realruns", lambda r: sec_real_runs(r, tier))):
         if only and only not in nm:
             continue
         rep.add(guarded(f"C12/{nm}", lambda f=f: (f(rep), [])[1]))
